@@ -248,7 +248,11 @@ def nontrivial(s):
     return "(" in s or re.search(r"[0-9)][a-zA-Z(]|[a-zA-Z)]\(", s) is not None
 
 
-CORRUPT = list("0123456789") + list(" ^*/()+-.1") + [X.DOT, "a", "^2", "**", "//", "((", "))"]
+CORRUPT = (list("0123456789") + list(" ^*/()+-.1") + [X.DOT, "a", "^2", "**", "//", "((", "))"]
+           # characters no clause of the grammar mentions: other white space, control characters,
+           # letters and digits outside ASCII, the underscore (none may be taken for a symbol)
+           + ["\n", "\t", "\r", "\x0b", "\x00", "_", "\u00b5", "\u03a9", "\u00e9", "\u00b2", "\u0663",
+              "\u2009", "\u00a0", "\n*", "\n/"])
 
 
 def corrupt(rng, s):
@@ -272,7 +276,9 @@ def gen_strings(rng, n):
         "(a))", "(a)b)", "base", "base*m", "kg*m^2/s^2A^2", "a/b(c/d)e", "(a/b)(c)", "1/s",
         "m^(1/2)", "1/(s" + X.DOT + "m^(1/2))", "a^2^3", "a b", "a2", "()", "(a)^2", "a//b", "a/",
         "*a", "((a))", "(a(b))", "m^(1/0)", "1", "m1", "a/1", "a^+2", "a^-", "a^(1/2", "a^-2b",
-        "a" * 30 + "!", "kilogram*meter*second^-2*ampere^-1 ", "a" + X.DOT + "b", "a/b/c", "a/b*c", "a/bc", "a/b^2c", "a/(b*c)d", "kg⋅m^2⋅s^-2"]]
+        "a" * 30 + "!", "kilogram*meter*second^-2*ampere^-1 ", "a" + X.DOT + "b", "a/b/c", "a/b*c", "a/bc", "a/b^2c", "a/(b*c)d", "kg⋅m^2⋅s^-2",
+        "(a\n*b)", "kg*(m\n/s)", "(a\n)", "a\nb", "a\n", "\na", "(\n)", "m^(1/2\n)", "a(b\tc)",
+        "(a\rb)", "a_b", "\u00b5m", "m\u00b2", "(\u03a9)", "a^\u0663"]]
     while len(out) < n:
         syms = rng.sample(X.SYMS, rng.randint(1, 4))
         e = gen_expr(rng, syms, True, rng.choice([1, 2, 2, 3, 4, 5, 6, 8, 10, 12]))
